@@ -1268,6 +1268,33 @@ func (l *Lowerer) buildOverrideInitExpr(expr parser.Expr) ir.OverrideInitExpr {
 		if handle, ok := l.moduleOverrides[e.Name]; ok {
 			return ir.OverrideInitRef{Handle: handle}
 		}
+		// A module-scope constant with a scalar value: its value as a literal.
+		var sv *ir.ScalarValue
+		if info, ok := l.abstractConstants[e.Name]; ok && info.scalarValue != nil {
+			sv = info.scalarValue
+		} else if ch, ok := l.moduleConstants[e.Name]; ok && int(ch) < len(l.module.Constants) {
+			if v, ok := l.module.Constants[ch].Value.(ir.ScalarValue); ok {
+				sv = &v
+			}
+		}
+		if sv != nil {
+			switch sv.Kind {
+			case ir.ScalarBool:
+				return ir.OverrideInitBoolLiteral{Value: sv.Bits != 0}
+			case ir.ScalarSint:
+				return ir.OverrideInitSintLiteral{Value: int32(sv.Bits)}
+			case ir.ScalarUint:
+				return ir.OverrideInitUintLiteral{Value: uint32(sv.Bits)}
+			case ir.ScalarAbstractInt:
+				return ir.OverrideInitLiteral{Value: float64(int64(sv.Bits))}
+			case ir.ScalarFloat:
+				if lit, ok := scalarValueToLiteral(*sv).(ir.LiteralF32); ok {
+					return ir.OverrideInitLiteral{Value: float64(lit)}
+				}
+			case ir.ScalarAbstractFloat:
+				return ir.OverrideInitLiteral{Value: math.Float64frombits(sv.Bits)}
+			}
+		}
 		return nil
 	case *parser.BinaryExpr:
 		left := l.buildOverrideInitExpr(e.Left)
